@@ -83,10 +83,13 @@ def fixtures(workdir):
     w(os.path.join(fx, "copy", "ops_copy.graphql"), QUERY_A)
     w(os.path.join(fx, "b", "ops.graphql"), QUERY_B)
     w(os.path.join(fx, "b", "sub", "ops.graphql"), QUERY_A)
-    w(os.path.join(fx, "bad.graphql"), "query Main { me { ")
+    # failing loads take a few milliseconds (other threads are then really waiting for the lock when the loader panics)
+    w(os.path.join(fx, "bad.graphql"), "query Main { me { " + " ".join("a%d: id" % k for k in range(4000)) + " ")
+    w(os.path.join(fx, "a", "invalid.graphql"), "query Main { me { friends { friends { friends { friends { nope } } } } } }\n")
+    w(os.path.join(fx, "a", "deep.graphql"), "query Main { me " + "{ friends " * 30 + "{ id }" + " }" * 30 + " }\n")
     w(os.path.join(fx, "a", "schema.graphql"), SCHEMA_A)
     w(os.path.join(fx, "b", "schema.graphql"), SCHEMA_B)
-    w(os.path.join(fx, "bad_schema.graphql"), "type Query { me: ")
+    w(os.path.join(fx, "bad_schema.graphql"), "".join("type T%d { a: Int b: [T%d!] }\n" % (k, k) for k in range(3000)) + "type Query { me: ")
     w(os.path.join(fx, "schema.txt"), SCHEMA_A)
     # the same schema as introspection JSON, produced from the SDL through the abstract schema of render.py
     sj = sdl_to_abstract(SCHEMA_A)
@@ -97,6 +100,7 @@ def fixtures(workdir):
         "q1rel": "ops.graphql", "q2rel": os.path.join("..", "ops.graphql"),     # relative to CWD = fx/b/sub
         "cwd": os.path.join(fx, "b", "sub"),
         "qmissing": os.path.join(fx, "a", "nothere.graphql"), "qbad": os.path.join(fx, "bad.graphql"),
+        "qinvalid": os.path.join(fx, "a", "invalid.graphql"), "qdeep": os.path.join(fx, "a", "deep.graphql"),
         "s1": os.path.join(fx, "a", "schema.graphql"), "s1json": os.path.join(fx, "a", "schema.json"),
         "s2": os.path.join(fx, "b", "schema.graphql"), "smissing": os.path.join(fx, "b", "nothere.graphql"),
         "sbad": os.path.join(fx, "bad_schema.graphql"), "sext": os.path.join(fx, "schema.txt"),
@@ -346,7 +350,9 @@ def main(tier, replay=None, selftest=False):
         # the model's idea of success / failure must agree with reality, otherwise the universe is wrong
         d = universe["calls"][c]
         model_ok = universe["files"][d["q"]]["status"] == "ok" and universe["files"][d["s"]]["status"] == "ok"
-        if model_ok != (seen[0][0] == "ok"):
+        # (`invalid` loads both files fine and is refused later, by resolution: for the cache model it is a
+        # call like any other, whose result - the error - must be the same whatever ran before)
+        if c != "invalid" and model_ok != (seen[0][0] == "ok"):
             raise ToolError("fixture/universe mismatch for call %s: model ok=%s, fresh process says %s %s" % (
                 c, model_ok, seen[0][0], seen[0][1][:200]))
     # distinct contents must give distinct outputs (otherwise the oracle cannot see a mix-up)
@@ -418,6 +424,12 @@ def main(tier, replay=None, selftest=False):
         check_run("history", c, run_plan(universe, paths, c["plan"], None), c["plan"])
     for c in sched_sel:
         check_run("schedule", c, run_plan(universe, paths, c["plan"], c["acq"]), c["plan"])
+    # soak histories: many failing calls of each kind, then valid ones (nothing a failed call leaves behind - in
+    # the caches, in thread-local or global state - may change a later result)
+    for plan in ({"t1": ["invalid"] * 30 + ["deep", "base", "both2"]},
+                 {"t1": ["qbad"] * 6 + ["smiss"] * 6 + ["sbad"] * 3 + ["deep", "json"]},
+                 {"t1": ["invalid"] * 12 + ["deep"], "t2": ["invalid"] * 12 + ["base"]}):
+        check_run("soak", {}, run_plan(universe, paths, plan, None), plan)
     okcalls = calls
     for (nt, nc) in free_runs:
         plan = {"t%d" % (i + 1): [rng.choice(okcalls) for _ in range(nc)] for i in range(nt)}
